@@ -178,9 +178,23 @@ def run(tier, seed):
         fmt = rnd.choice(list(fmt_choices(["M", "N", "K"], rnd)))
         rec.case("depth3", (spec_key(spec), repr(fmt)))
         check(rec, "depth3", 3, n, spec, fmt)
+    # at scale: ranks holding many fibers, long fibers
+    for _ in range(25 if tier == "quick" else 300):
+        rows = rnd.choice([10, 14, 24])
+        cols = rnd.choice([6, 14, 30])
+        spec = {r: {c: rnd.choice([0, 1, 2]) for c in range(cols) if rnd.random() < rnd.choice([0.15, 0.5, 0.9])} for r in range(rows) if rnd.random() < 0.9}
+        nn = max(rows, cols)
+        fmt = rnd.choice(list(fmt_choices(["M", "N"], rnd)))
+        rec.case("scale", (spec_key(spec), repr(fmt)))
+        check(rec, "scale", 2, nn, spec, fmt)
+        leaf = {c: rnd.choice([0, 1]) for c in range(40) if rnd.random() < 0.7}
+        fmt1 = rnd.choice(list(fmt_choices(["M"], rnd)))
+        rec.case("scale", (spec_key(leaf), repr(fmt1)))
+        check(rec, "scale", 1, 40, leaf, fmt1)
     return rec.result("every fiber over 3 coordinates and every depth-2 tree over 2 coordinates (explicit defaults, empty sub-fibers) x every C/U format "
                       "assignment x random widths from {0,1,3} incl. specs with missing fields; seeded random depth-3 tensors; getRoot/getElem/getFiber/"
-                      "getRank/getTensor/getSubTree at every stored prefix against sums recomputed from a raw walk of the tree")
+                      "getRank/getTensor/getSubTree at every stored prefix against sums recomputed from a raw walk of the tree; plus seeded random depth-2 tensors "
+                      "at scale (10-24 fibers in the lower rank, fibers of up to 30 elements) and 40-coordinate leaf fibers")
 
 
 def replay(case):
